@@ -113,7 +113,10 @@ def run_contract(c, values, info):
     exc = None
     result = None
     try:
-        result = target(*[vals[k] for k in order], **c.call_kwargs)
+        kws = dict(c.call_kwargs)
+        for k in getattr(c, "kw", []):
+            kws[k] = vals[k]
+        result = target(*[vals[k] for k in order if k not in getattr(c, "kw", [])], **kws)
     except Exception as e:   # noqa
         exc = exc_name(e)
         detail["traceback"] = traceback.format_exc()[-1500:]
